@@ -42,6 +42,20 @@ Definition ops_of (r : result) : list op := match r with ROk l | RErr l => l end
 
 Definition is_some {A} (o : option A) : bool := match o with Some _ => true | None => false end.
 
+(* the `if` / `while` conditions of a function as extracted by the translator (Gen.fn_guards) *)
+Fixpoint lookup_guards (k : string) (l : list (string * list string)) : list string :=
+  match l with
+  | [] => []
+  | (k', g) :: r => if String.eqb k k' then g else lookup_guards k r
+  end.
+Definition has_guard (fn_key cond : string) : bool :=
+  existsb (String.eqb cond) (lookup_guards fn_key fn_guards).
+
+
+Definition has_let (fn_key stmt : string) : bool :=
+  existsb (String.eqb stmt) (lookup_guards fn_key fn_lets).
+
+
 (* ------------------------------------------------------------------------------------------ *)
 (** ** utils.rs: [State] and [MultiFieldData] (utils.rs:261-727)
 
@@ -83,12 +97,16 @@ Definition enabled_fields_data (en : list bool) : mfd :=
      m_casted_traits := length (map (fun t => t) field_types);
      m_state_fields := length en |}.
 
-(** utils.rs:561-585 assert_single_enabled_field *)
+(** utils.rs:561-585 assert_single_enabled_field; its guard is looked up in the source (Gen.fn_guards): without it
+    the five `[0]` are modelled as unguarded *)
+Definition asef_guard : bool :=
+  has_guard "utils.rs|assert_single_enabled_field"%string "data . fields . len ( ) != 1"%string.
+
 Definition assert_single_enabled_field (is_enum : bool) (en : list bool) : result :=
   if is_enum then RErr []                                   (* panic_one_field: diagnostic *)
   else
     let d := enabled_fields_data en in
-    if negb (m_fields d =? 1) then RErr []                  (* panic_one_field: diagnostic *)
+    if asef_guard && negb (m_fields d =? 1) then RErr []    (* `if data.fields.len() != 1`: panic_one_field, diagnostic *)
     else ROk [OIndex 0 (m_fields d); OIndex 0 (m_field_types d); OIndex 0 (m_members d);
               OIndex 0 (m_infos d); OIndex 0 (m_casted_traits d)].
 
@@ -313,6 +331,10 @@ Definition vt_unplaced : list op :=
                      | _ => []
                      end) validate_type_subs.
 
+(* the arm `Tuple if self.len() == 1 && elems.is_empty() => Err` that from.rs:166 relies on, looked up in the source *)
+Definition vt_single_guard : bool :=
+  has_guard "utils.rs|validate_type"%string "self . len ( ) == 1 && elems . is_empty ( ) =>"%string.
+
 Definition validate_type (n : nat) (ty : from_ty) : vt_result :=
   match ty with
   | TyTuple k =>
@@ -322,7 +344,7 @@ Definition validate_type (n : nat) (ty : from_ty) : vt_result :=
         | Lt => VErr (vt_unplaced ++ vt_subs VBLess n k)           (* self.len() < elems.len() *)
         | Eq => VOk vt_unplaced k
         end
-      else if (n =? 1) && (k =? 0) then VErr vt_unplaced      (* a single field needs exactly one type *)
+      else if vt_single_guard && (n =? 1) && (k =? 0) then VErr vt_unplaced   (* a single field needs exactly one type *)
       else VOk vt_unplaced k
   | TyOther =>
       if 1 <? n then VErr (vt_unplaced ++ vt_subs VBOther n 0)     (* `other if self.len() > 1` *)
@@ -369,6 +391,9 @@ Definition legacy_error (metas : list nested_meta) (nfields : nat) : list op :=
     (from.rs:306,382; into.rs:499; fmt/display.rs:507) and `variants[0]` (from_str.rs:80) *)
 Definition len1_next (n : nat) : list op := if n =? 1 then [OUnwrap (0 <? n)] else [].
 Definition len1_index0 (n : nat) : list op := if n =? 1 then [OIndex 0 n] else [].
+(* from_str.rs:80 `variants[0]` under `if variants.len() == 1`, the condition looked up in the source *)
+Definition from_str_guard : bool := has_guard "from_str.rs|enum_from"%string "variants . len ( ) == 1"%string.
+Definition from_str_index0 (n : nat) : list op := if from_str_guard then len1_index0 n else [OIndex 0 n].
 
 (* ------------------------------------------------------------------------------------------ *)
 (** ** try_into.rs:30-66: one member of a bucket of [variants_per_types]
@@ -389,11 +414,20 @@ Definition is_skip (a : fattr) : bool := match a with ASkip => true | _ => false
 Definition as_struct_attr (nfields : nat) : result :=
   if negb (nfields =? 1) then RErr [] else ROk [OUnwrap (0 <? nfields)].
 
-(* :68-139 field-level attributes *)
+(* :68-139 field-level attributes.  The `unreachable!()` of :135 relies on the validation pass of :76-100 over the
+   same attributes; that pass is looked up in the source (its two `let` statements and its three conditions, as
+   extracted into Gen.fn_lets / Gen.fn_guards): if any of them is not there verbatim, the pass is modelled as absent *)
+Definition as_validation_present : bool :=
+  has_let "as/mod.rs|expand"%string "let present_attrs = attrs . iter ( ) . filter_map ( Option :: as_ref ) . collect :: < Vec < _ > > ( ) #0835c1e82d"%string &&
+  has_let "as/mod.rs|expand"%string "let all = present_attrs . iter ( ) . all ( | attr | matches ! ( attr . item , FieldAttribute :: Skip ( _ ) ) ) #0e2a09916b"%string &&
+  has_guard "as/mod.rs|expand"%string "! all"%string &&
+  has_guard "as/mod.rs|expand"%string "let Some ( skip_attr ) = present_attrs . iter ( ) . find_map ( | attr | { if let FieldAttribute :: Skip ( skip ) = & attr . item { Some ( attr . as_ref ( ) . ma #0ec9dbccb6"%string &&
+  has_guard "as/mod.rs|expand"%string "all"%string.
+
 Definition as_field_attrs (attrs : list (option fattr)) : result :=
   let present := flat_map (fun a => match a with Some x => [x] | None => [] end) attrs in
   let all := forallb is_skip present in
-  if negb all && existsb is_skip present then RErr []          (* :84-100 *)
+  if as_validation_present && negb all && existsb is_skip present then RErr []          (* :84-100 *)
   else if all then ROk []
   else ROk (flat_map (fun a => match a with Some ASkip => [OUnreachable] | _ => [] end) attrs).  (* :135 *)
 
@@ -419,9 +453,15 @@ Definition generate_bounds_unwrap (shared : option (bool * option bool)) (has_fm
 (** ** into.rs:541-626 check_legacy_syntax: lengths of the four collected lists *)
 Definition nonempty (o : option nat) : bool := match o with Some (S _) => true | _ => false end.
 
+(* the try_fold + filter `let .. else { return Ok(()) }` and the `if [..].any(Option::is_some)` the final
+   `top_level.unwrap_or_else(|| unreachable!())` relies on, looked up in the source *)
+Definition il_guard : bool :=
+  has_let "into.rs|check_legacy_syntax"%string "let Some ( ( top_level , owned , ref_ , ref_mut ) ) = metas . into_iter ( ) . try_fold ( ( None , None , None , None ) , #bcead77b6c"%string &&
+  has_guard "into.rs|check_legacy_syntax"%string "[ & owned , & ref_ , & ref_mut ] . into_iter ( ) . any ( Option :: is_some )"%string.
+
 Definition into_legacy (top owned ref_ ref_mut : option nat) : list op :=
-  if negb (existsb nonempty [top; owned; ref_; ref_mut]) then []       (* :588-596 return Ok(()) *)
-  else if existsb is_some [owned; ref_; ref_mut] then []               (* :598 *)
+  if il_guard && negb (existsb nonempty [top; owned; ref_; ref_mut]) then []       (* :588-596 return Ok(()) *)
+  else if il_guard && existsb is_some [owned; ref_; ref_mut] then []               (* :598 *)
   else [OUnwrap (is_some top)].                                        (* :624 *)
 
 (** ** into.rs:334-403 ConversionsAttribute::parse: what its loop does to `out.owned.tys`.
@@ -443,16 +483,6 @@ Definition extend_pairs (st : nat * bool) (k : nat) (inner_trailing : bool) : na
 
 Definition prepend (ops : list op) (r : result) : result :=
   match r with ROk l => ROk (ops ++ l) | RErr l => RErr (ops ++ l) end.
-
-(* the `if` / `while` conditions of a function as extracted by the translator (Gen.fn_guards) *)
-Fixpoint lookup_guards (k : string) (l : list (string * list string)) : list string :=
-  match l with
-  | [] => []
-  | (k', g) :: r => if String.eqb k k' then g else lookup_guards k r
-  end.
-Definition has_guard (fn_key cond : string) : bool :=
-  existsb (String.eqb cond) (lookup_guards fn_key fn_guards).
-
 
 (* into.rs:362 the guard of `convs.tys.push_punct(comma)` in parse_inner, as it is written in the source *)
 Definition pi_guard : bool := has_guard "into.rs|parse"%string "! convs . tys . empty_or_trailing ( )"%string.
@@ -765,7 +795,7 @@ Definition classification : list (string * cls) := [
   (* from_str.rs:62 enum_from  --  panic ! ( 'Only enums with no fields can derive({trait_name})' ) *)
   ("from_str.rs|enum_from|panic|adb2be67", Diagnostic);
   (* from_str.rs:80 enum_from  --  variants [ 0 ] *)
-  ("from_str.rs|enum_from|index|c18528fa", Discharged "C18_len1_index0_safe");
+  ("from_str.rs|enum_from|index|c18528fa", Discharged "C18_from_str_index0_safe");
   (* from_str.rs:112 panic_one_field  --  panic ! ( 'Only structs with one field can derive({trait_name})' ) *)
   ("from_str.rs|panic_one_field|panic|c74dc9f9", Diagnostic);
   (* index.rs:8 expand  --  format_ident ! ( '__IdxT' ) *)
